@@ -124,6 +124,7 @@ def check_defaults(R):
         if got.get(fn, {}) != want:
             diffs.append(f"{fn}: source {got.get(fn, {})} vs model {want}")
     R.cov["source_defaults_pinned"] = sum(len(v) for v in EXPECTED_DEFAULTS.values())
+    R.suspect_functions = [d.split(":")[0] for d in diffs]
     if diffs:
         R.corr_broken.append("default arguments of the source differ from what the models assume: " + "; ".join(diffs[:4]))
 
